@@ -25,6 +25,9 @@ namespace Givaro {
         _prod(one), _ck(0)
     {
         GIVARO_ASSERT( inprimes.size()>0, "[IntRNSsystem::IntRNSsystem] bad size of array");
+        // -- the const accessors only read: several threads may share one system
+        ComputeProd();
+        ComputeCk();
     }
 
     // -- Array of primes are given
@@ -39,6 +42,8 @@ namespace Givaro {
         typename Container<TT, Alloc<TT> >::const_iterator np = inprimes.begin();
         for(typename array::iterator pi = _primes.begin(); pi != _primes.end(); ++pi, ++np)
             *pi = Element( *np );
+        ComputeProd();
+        ComputeCk();
     }
 
 #if 0
@@ -82,6 +87,7 @@ namespace Givaro {
 
         // - reallocation of a new array :
         size_t size = _primes.size();
+        if (size == 0) return; // -- no prime, nothing to compute
         _ck.resize(size);
         _ck[0] = Element::zero; // -- undefined and never used
 
@@ -126,8 +132,7 @@ namespace Givaro {
     //#endif
     inline const typename IntRNSsystem< Container, Alloc >::Element IntRNSsystem< Container, Alloc >::product() const
     {
-        ((IntRNSsystem< Container, Alloc >*)this)->ComputeProd();
-        return _prod;
+        return _prod; // -- computed by the constructors
     }
 
     //#ifndef __ECC
@@ -137,8 +142,7 @@ namespace Givaro {
     //#endif
     inline const typename IntRNSsystem< Container, Alloc >::array& IntRNSsystem< Container, Alloc >::Reciprocals() const
     {
-        if (_ck.size() ==0) ((IntRNSsystem< Container, Alloc >*)this)->ComputeCk();
-        return _ck;
+        return _ck; // -- computed by the constructors
     }
 
 
@@ -149,8 +153,7 @@ namespace Givaro {
     //#endif
     inline const typename IntRNSsystem< Container, Alloc >::Element IntRNSsystem< Container, Alloc >::reciprocal(const size_t i) const
     {
-        if (_ck.size() ==0) ((IntRNSsystem< Container, Alloc >*)this)->ComputeCk();
-        return _ck[i];
+        return _ck[i]; // -- computed by the constructors
     }
 
 } // namespace Givaro
